@@ -485,7 +485,7 @@ PLANS = {
                      'runs': {'quick': [dict(args=['--mode', 'rnd', '--count', '300'], shards=16)], 'thorough': [dict(args=['--mode', 'rnd', '--count', '10000'], shards=16)]}}],
     },
     'C13': {
-        'level': 'proof', 'coq': 'Properties_C13',
+        'level': 'proof', 'coq': 'Properties_C13', 'pregen': ['gen_tables.py'],
         'rule': 'doubles with aimed structure (exponent gaps 0..110 between the operands, significands that are zero / all ones / one bit / sparse / random with '
                 'trailing zeros, cancelling and equal pairs, subnormals, values at the split threshold) through two_sum, two_diff, quick_two_sum, two_prod, two_sqr, '
                 'split, three_sum; built twice (-O1 and -O2 -ffp-contract=off); generic twoSum on all pairs of quarter (cfloat<8,2>) and cfloat<8,4> and samples of half '
@@ -696,7 +696,7 @@ PLANS = {
                     exh('integer_from_exh', 'integer_small', 'from'), rnd('integer_from_rnd', 'integer_large', 'from', 300, 6000, shards=16)],
     },
     'C04': {
-        'level': 'proof', 'coq': 'Properties_C04',
+        'level': 'proof', 'coq': 'Properties_C04', 'pregen': ['gen_tables.py'],
         'rule': 'every encoding of every small posit/cfloat/fixpnt/integer/areal configuration: double(x), float(x), T(double(x)), '
                 'int/long long (x); sampled for large configurations whose values fit the native type. non-trivial = all; distinct = distinct lines',
         'assumptions': ['NaN results compared as a class'],
